@@ -13,7 +13,10 @@ package main
 
 import (
 	"fmt"
+	"go/ast"
+	"go/constant"
 	"go/token"
+	"go/types"
 	"strings"
 )
 
@@ -28,6 +31,7 @@ func checkC06(p *Prog, r *Report) {
 	c15History(p, r, "C06.R5")
 	domainRule(p, r, "C06.R6", "the functions of the run path", nil, 180)
 	solarClamps(p, r, "C06.R7")
+	c06MeasuredWater(p, r)
 	r.Note("not decided: NaN/Inf created inside the functions excluded by name (solar geometry, photosynthesis light response, crop development, residue tables), overflow to infinity of finite operands, NaN read from input files, and bounds over multi-day histories")
 }
 
@@ -193,4 +197,75 @@ func c06Overflow(p *Prog, r *Report) {
 		}
 	}
 	r.Ob("last-writer", p.Pos(conv.Pos), len(others) == 0, fmt.Sprintf("between the overflow pass and WG = WATER/DZ only the capillary-rise increment writes the layer water; other writers: %s", orStr(strings.Join(others, "; "), "none")))
+}
+
+// ---------------------------------------------------------------- measured water contents replace the state only where measured
+
+// c06MeasuredWater: on a sampling date the run takes over measured water contents.  A measurement file may cover the
+// upper layers only (nine columns, or a csv without the deep columns); the readers leave 0 for the others.  The
+// overwrite of a layer's water content is therefore conditional on a positive measured value of the same layer —
+// otherwise the deep layers drop to exactly 0, below the dryness limit, and the concentrations derived from them are
+// 0/0.
+func c06MeasuredWater(p *Prog, r *Report) {
+	r.Rule("C06.R8", "measured water contents replace the simulated state only where a value was measured: the store of a layer's water content from the measurement slot is guarded by a positivity test of a measurement-slot cell of the same layer", 1)
+	fi := p.Funcs["hermes.HermesSession.Run"]
+	if fi == nil {
+		r.Ob("measured-water:guarded", "-", false, "hermes.HermesSession.Run not found")
+		return
+	}
+	info := fi.Pkg.TypesInfo
+	// g.WG[a][b] → (a text, b text)
+	wg := func(e ast.Expr) (string, string, bool) {
+		outer, ok := ast.Unparen(e).(*ast.IndexExpr)
+		if !ok {
+			return "", "", false
+		}
+		inner, ok := outer.X.(*ast.IndexExpr)
+		if !ok {
+			return "", "", false
+		}
+		se, ok := inner.X.(*ast.SelectorExpr)
+		if !ok || se.Sel.Name != "WG" {
+			return "", "", false
+		}
+		if sel, ok := info.Selections[se]; !ok || sel.Kind() != types.FieldVal {
+			return "", "", false
+		}
+		return types.ExprString(inner.Index), types.ExprString(outer.Index), true
+	}
+	n := 0
+	ast.Inspect(fi.Decl.Body, func(m ast.Node) bool {
+		as, ok := m.(*ast.AssignStmt)
+		if !ok || len(as.Lhs) != 1 || len(as.Rhs) != 1 {
+			return true
+		}
+		ls, lz, okL := wg(as.Lhs[0])
+		rs, rz, okR := wg(as.Rhs[0])
+		if !okL || !okR || ls != "1" || !strings.Contains(rs, "MZ") || lz != rz {
+			return true
+		}
+		n++
+		conds, _ := astPathConds(info, fi.Decl.Body, as)
+		guarded := false
+		for _, c := range conds {
+			be, ok := c.E.(*ast.BinaryExpr)
+			if !ok || c.Neg {
+				continue
+			}
+			for _, pair := range [][2]ast.Expr{{be.X, be.Y}, {be.Y, be.X}} {
+				_, z, isWG := wg(pair[0])
+				tv, has := info.Types[pair[1]]
+				if isWG && z == lz && has && tv.Value != nil && constant.Sign(tv.Value) == 0 {
+					if (pair[0] == be.X && be.Op == token.GTR) || (pair[0] == be.Y && be.Op == token.LSS) {
+						guarded = true
+					}
+				}
+			}
+		}
+		r.Ob("measured-water:guarded", p.Pos(as.Pos()), guarded, fmt.Sprintf("water content of layer %s is taken from the measurement slot only where a measured value is positive: %v", lz, guarded))
+		return true
+	})
+	if n == 0 {
+		r.Ob("measured-water:guarded", "-", false, "the take-over of measured water contents was not found in the run routine")
+	}
 }
